@@ -120,8 +120,14 @@ def run_history(h, vals, initial):
     fails = []
     for op in h:
         if op[0] == 'set':
+            before = dict(P.get_default_config())
             ret = P.set_default_config(**op[1])
             got = dict(P.get_default_config())
+            want_cfg = dict(before)
+            want_cfg.update(op[1])            # the property: exactly the settings it is given change
+            if {k: got.get(k) for k in want_cfg} != want_cfg:
+                fails.append(('set_default_config(%s) on defaults %s left the defaults %s, expected %s' % (
+                    op[1], env_str(before), env_str(got), env_str(want_cfg)), op))
             ops.append('(set %s)' % sx_env(op[1]))
             obs.append(env_str(got) + ' | -')
             if dict(ret) != got:
